@@ -1429,7 +1429,7 @@ PROPERTY = Property(
                  rule="UniformIce (n 1.1-2, any range, boundary indices set/None) x endpoints (inside, on and "
                       "1 ulp inside the boundaries, outside) x max_reflections 0..3: the set of (reflections, "
                       "first direction) returned; non-trivial = max_reflections >= 1 or an endpoint outside",
-                 floors={"outside": 0.1, "solutions_suppressed": 0.2}),
+                 floors={"outside": 0.1, "solutions_suppressed": 0.12}),
         SubCheck("uniform_direct", uniform_cases(), check_uniform_direct, quick=1500, thorough=60000,
                  rule="same domain, endpoints inside: the reflection-free solution vs the straight segment; "
                       "non-trivial = distinct endpoints",
@@ -1456,8 +1456,8 @@ PROPERTY = Property(
                       "endpoints and translated to source x=y=0) has a layered counterpart with equal length, "
                       "time, directions and Fresnel product; other layered solutions carry |Fresnel| < 1e-9; every "
                       "layered solution is a valid chain; non-trivial = some solution crosses a split",
-                 floors={"split_between": 0.2, "split_at_endpoint": 0.1, "phantom_reflection": 0.1,
-                         "source_xy_offset": 0.3},
+                 floors={"split_between": 0.1, "split_at_endpoint": 0.1, "phantom_reflection": 0.2,
+                         "source_xy_offset": 0.3, "transmission": 0.3},
                  classify=_classify_split_uniform),
         SubCheck("split_exponential", split_exp_cases(), check_split_exp, quick=600, thorough=20000,
                  rule="exponential ice (shipped or arbitrary n0,k,a; depths above 30/a so that the index is "
@@ -1467,7 +1467,8 @@ PROPERTY = Property(
                       "product), other layered solutions carry |Fresnel| < 1e-9, every layered solution is a "
                       "valid chain whose sub-paths pass C01's quadrature oracle; non-trivial = a matched solution "
                       "and a crossing of a split",
-                 floors={"split_between": 0.15, "transmission": 0.4, "turning_subpath": 0.2},
+                 floors={"split_between": 0.15, "transmission": 0.35, "turning_subpath": 0.35, "below_z_uniform": 0.25,
+                         "custom_ice": 0.3, "source_xy_offset": 0.25},
                  classify=_classify_layered, shrink_cap=(30, 180)),
         SubCheck("layered_chain", chain_cases(), check_chain_case, quick=800, thorough=30000,
                  rule="2-3 different layers (uniform / exponential / mixed), any boundary indices, endpoints "
@@ -1476,7 +1477,8 @@ PROPERTY = Property(
                       "segment / quadrature oracle), Snell or mirror law at every junction, reflections only "
                       "where an index is declared, totals add up, Fermat's principle for the refracted ray "
                       "through uniform layers; non-trivial = some solution crosses a boundary",
-                 floors={"transmission": 0.4, "boundary_reflection": 0.2, "fermat_checked": 0.1},
+                 floors={"transmission": 0.25, "boundary_reflection": 0.2, "fermat_checked": 0.15, "turning_subpath": 0.08,
+                         "flavour=exponential": 0.08, "three_or_more_subpaths": 0.2},
                  classify=_classify_layered, shrink_cap=(30, 180)),
     ],
     assumptions=[
